@@ -185,6 +185,95 @@ func c12KindInserts(fn *ssa.Function) []*ssa.MapUpdate {
 	return out
 }
 
+// c12RefsWrites: instructions of fn that change which owner set informerReferences holds for a kind
+// (`informerReferences[k] = …`, `delete(informerReferences, k)`).
+func c12RefsWrites(fn *ssa.Function) []ssa.Instruction {
+	var out []ssa.Instruction
+	for _, mu := range c12KindInserts(fn) {
+		out = append(out, mu)
+	}
+	for _, b := range fn.Blocks {
+		for _, in := range b.Instrs {
+			if args, ok := builtinCall(in, "delete"); ok && len(args) == 2 {
+				if _, isRefs := c12IsRefsMap(args[0]); isRefs {
+					out = append(out, in)
+				}
+			}
+		}
+	}
+	return out
+}
+
+// c12CurrentOwnerSet: at instruction `use` of fn, v is the owner set that informerReferences holds for
+// `kind` — however it was obtained: read from the map (`informerReferences[kind]`, plain or comma-ok)
+// with no write of the map between the read and the use, or the very value that was stored under the
+// kind (`refs = map…{}; informerReferences[kind] = refs`) on every way to the use with no other write
+// after it, or a merge of such values (each judged at the end of the block it arrives from). A set
+// that was read before the kind's entry was replaced is stale and is not accepted.
+func (p *Program) c12CurrentOwnerSet(fn *ssa.Function, v ssa.Value, kind ssa.Value, use ssa.Instruction, depth int) bool {
+	if depth > 4 {
+		return false
+	}
+	v = p.c12Resolve(v)
+	writes := c12RefsWrites(fn)
+	unwrittenSince := func(from ssa.Instruction, except ssa.Instruction) bool {
+		for _, in := range between(from, use) {
+			for _, w := range writes {
+				if in == w && w != except {
+					return false
+				}
+			}
+		}
+		return true
+	}
+	if ph, ok := v.(*ssa.Phi); ok {
+		if len(ph.Edges) == 0 {
+			return false
+		}
+		for i, e := range ph.Edges {
+			pr := ph.Block().Preds[i]
+			if len(pr.Instrs) == 0 {
+				return false
+			}
+			if !p.c12CurrentOwnerSet(fn, e, kind, pr.Instrs[len(pr.Instrs)-1], depth+1) {
+				return false
+			}
+		}
+		// from the merge to the use
+		return unwrittenSince(ph, nil)
+	}
+	var lk *ssa.Lookup
+	switch x := v.(type) {
+	case *ssa.Lookup:
+		if !x.CommaOk {
+			lk = x
+		}
+	case *ssa.Extract:
+		if t, ok := x.Tuple.(*ssa.Lookup); ok && t.CommaOk && x.Index == 0 {
+			lk = t
+		}
+	}
+	if lk != nil {
+		if _, isRefs := c12IsRefsMap(lk.X); !isRefs || !p.sameValue(lk.Index, kind) {
+			return false
+		}
+		return unwrittenSince(lk, nil)
+	}
+	// the value stored under the kind
+	for _, mu := range c12KindInserts(fn) {
+		if mu.Value != v || !p.sameValue(mu.Key, kind) {
+			continue
+		}
+		if use != ssa.Instruction(mu) && !p.mustPrecede(use, func(in ssa.Instruction) bool { return in == ssa.Instruction(mu) }) {
+			continue
+		}
+		if unwrittenSince(mu, mu) {
+			return true
+		}
+	}
+	return false
+}
+
 // c12WatchFuncs: functions of the package that insert a kind into informerReferences.
 func c12WatchFuncs(c *Ctx) []*ssa.Function {
 	var out []*ssa.Function
@@ -299,11 +388,7 @@ func c12r2(c *Ctx) {
 				if !ok {
 					continue
 				}
-				lk, isLk := stripConv(mu.Map).(*ssa.Lookup)
-				if !isLk {
-					continue
-				}
-				if _, isRefs := c12IsRefsMap(lk.X); !isRefs || !p.sameValue(lk.Index, kindKey) {
+				if _, isRefs := c12IsRefsMap(mu.Map); isRefs || !p.c12CurrentOwnerSet(fn, mu.Map, kindKey, mu, 0) {
 					continue
 				}
 				if _, ok := p.c12OwnerRefOf(mu.Key); ok {
@@ -531,7 +616,7 @@ func c12r3(c *Ctx) {
 				if !dominatesAllTails(call.Instr.Block(), loop) {
 					problems = append(problems, "Start is not executed on every iteration")
 				}
-				if ok, at := p.loopEarlyExitsOnly(loop, func(r *ssa.Return) bool { return !p.mayReturnNilErr(r) }); !ok {
+				if ok, at := p.loopEarlyExitsFail(loop); !ok {
 					problems = append(problems, "the loop can be left early with a possibly-nil error at "+at+" (remaining handlers would not be attached)")
 				}
 			}
@@ -926,7 +1011,7 @@ func c12r5(c *Ctx) {
 				l := innermostLoop(a.Fn, a.Instr.Block())
 				if l == nil {
 					problems = append(problems, "removal is not inside the loop over informerReferences")
-				} else if ok, at := p.loopEarlyExitsOnly(l, func(r *ssa.Return) bool { return !p.mayReturnNilErr(r) }); !ok {
+				} else if ok, at := p.loopEarlyExitsFail(l); !ok {
 					problems = append(problems, "the loop over informerReferences can be left early with a possibly-nil error at "+at+" (remaining kinds keep the owner)")
 				}
 			}
